@@ -330,8 +330,50 @@ func c04dGen(cfg config, emit func(Case)) {
 	}
 }
 
+// every declared error code survives the wire as a CALL_ERROR, in both dialects: built by CreateCallError on one endpoint,
+// decoded by ParseMessage on the peer that has the request outstanding, same id / code / description.  Like the probe
+// above these cases ride on a trivial string-text input; their Check reports what the real round trip did.
+func c04ErrorCodes(emit func(Case)) {
+	codes := []ocpp.ErrorCode{ocppj.NotImplemented, ocppj.NotSupported, ocppj.InternalError, ocppj.MessageTypeNotSupported, ocppj.ProtocolError,
+		ocppj.SecurityError, ocppj.PropertyConstraintViolation, ocppj.OccurrenceConstraintViolationV2, ocppj.OccurrenceConstraintViolationV16,
+		ocppj.TypeConstraintViolation, ocppj.GenericError, ocppj.FormatViolationV2, ocppj.FormatViolationV16}
+	for _, ver := range []string{"16", "201"} {
+		ends := newC04Ends(ver)
+		for _, code := range codes {
+			kind, detail := "", ""
+			id := "e-1"
+			ce, err := ends.a.CreateCallError(id, code, "descr", nil)
+			if err != nil {
+				kind, detail = "C04-valid-payload-refused", fmt.Sprintf("CreateCallError(%s): %v", code, err)
+			} else if frame, err := ce.MarshalJSON(); err != nil {
+				kind, detail = "C04-marshal-error", err.Error()
+			} else {
+				state := ocppj.NewClientState()
+				state.AddPendingRequest(id, core16.NewHeartbeatRequest())
+				parsed, e1 := ocppj.ParseRawJsonMessage(frame)
+				var msg ocppj.Message
+				var e2 error
+				if e1 == nil {
+					msg, e2 = ends.b.ParseMessage(parsed, state)
+				}
+				got, ok := msg.(*ocppj.CallError)
+				switch {
+				case e1 != nil || e2 != nil || msg == nil:
+					kind, detail = "C04-peer-rejects", fmt.Sprintf("CALL_ERROR %s: %v %v", code, e1, e2)
+				case !ok || got.UniqueId != id || got.ErrorCode != code || got.ErrorDescription != "descr":
+					kind, detail = "C04-kind-id-action", fmt.Sprintf("CALL_ERROR %s decoded as %+v", code, msg)
+				}
+			}
+			k, d := kind, detail
+			emit(Case{Class: "probe/error-code", Input: []int64{1, 97}, Obs: []int64{97}, Comment: fmt.Sprintf("%s CALL_ERROR %s", ver, code),
+				Check: func([]int64) (string, string) { return k, d }})
+		}
+	}
+}
+
 func c04sGen(cfg config, emit func(Case)) {
 	c04BigIntProbe(emit)
+	c04ErrorCodes(emit)
 	rng := rand.New(rand.NewSource(cfg.seed + 99))
 	n := 400
 	if cfg.thorough {
